@@ -18,6 +18,8 @@ pub enum Step {
   BottomUp(Vec<u32>),
   /// Crash point: the k-th task operation of the next session panics.
   PanicAt(u64),
+  /// As PanicAt, but entries of other user code (resource open, checkers, write functions) count as operations too.
+  PanicAtAny(u64),
 }
 
 impl Step {
@@ -28,6 +30,7 @@ impl Step {
       Step::TopDown(roots) => format!("session: require {:?}", roots),
       Step::BottomUp(roots) => format!("session: bottom-up build of all pending changes, then require {:?}", roots),
       Step::PanicAt(k) => format!("inject: task operation #{} of the next session panics", k),
+      Step::PanicAtAny(k) => format!("inject: user-code entry #{} (task operation, resource open, checker call or write function) of the next session panics", k),
     }
   }
   pub fn is_build(&self) -> bool { matches!(self, Step::TopDown(_) | Step::BottomUp(_)) }
